@@ -118,7 +118,10 @@ def export_func(fn: Any) -> dict[str, Any]:
                 if isinstance(op.src, O.Undef):
                     r = dict(k="assignundef", d=vid(op.dest))
                 else:
-                    r = dict(k="assign", d=vid(op.dest), s=s_, st=st_)
+                    c = 9
+                    if isinstance(op.src, O.Integer):
+                        c = 1 if op.src.value != 0 else 0
+                    r = dict(k="assign", d=vid(op.dest), s=s_, st=st_, c=c)
             elif isinstance(op, O.Goto):
                 r = dict(k="goto", t=labels[op.label])
             elif isinstance(op, O.Branch):
@@ -196,6 +199,7 @@ def export_func(fn: Any) -> dict[str, Any]:
             mops.append((name, op.line))
         blocks.append(ops)
         meta.append(mops)
+    _add_kills(blocks)
     n = len(vals)
     w = [_leaves(v.type) for v in vals]
     base = []
@@ -215,6 +219,70 @@ def export_func(fn: Any) -> dict[str, Any]:
                 opt.append(ids[a])
     return dict(nv=n, na=len(fn.arg_regs), ns=acc, opt=opt, w=w, base=base, nm=nm, blocks=blocks,
                 _meta=meta, _vals=[(getattr(v, "name", "") or "") for v in vals])
+
+
+def _add_kills(blocks: list[list[dict[str, Any]]]) -> None:
+    """Per op, the values that no op reachable from its successor mentions any more (kl; kt / kf
+    for the two edges of a branch).  A plain backward `mentioned-later' analysis over the exported
+    records -- independent of mypyc's own liveness analysis; the machine only uses it to forget
+    st / bl of dead values so that paths differing in dead values merge (own is never forgotten,
+    so a leaked reference is still seen at the return)."""
+    lend: dict[int, int] = {}
+    for blk in blocks:
+        for op in blk:
+            if op["k"] in ("op", "tget") and op["bw"] and op["ln"] > 0:
+                lend[op["d"]] = op["ln"]
+
+    def uses(op: dict[str, Any]) -> set[int]:
+        u = {v for v in op.get("s", ()) if v}
+        if op["k"] == "unborrow" and op["root"]:
+            u.add(op["root"])
+        for v in list(u):
+            seen = 0
+            while v in lend and seen < 8:  # a value borrowed from v needs v
+                v = lend[v]
+                u.add(v)
+                seen += 1
+        return u
+
+    nb = len(blocks)
+    succ: list[list[int]] = []
+    for blk in blocks:
+        last = blk[-1]
+        if last["k"] == "goto":
+            succ.append([last["t"] - 1])
+        elif last["k"] == "branch":
+            succ.append([last["t"] - 1, last["f"] - 1])
+        else:
+            succ.append([])
+    use_b = [[uses(op) for op in blk] for blk in blocks]
+    def_b = [[({op["d"]} if op.get("d") else set()) for op in blk] for blk in blocks]
+    live_in: list[set[int]] = [set() for _ in range(nb)]
+    changed = True
+    while changed:
+        changed = False
+        for bi in range(nb - 1, -1, -1):
+            live: set[int] = set()
+            for sj in succ[bi]:
+                live |= live_in[sj]
+            for oi in range(len(blocks[bi]) - 1, -1, -1):
+                live = (live - def_b[bi][oi]) | use_b[bi][oi]
+            if live != live_in[bi]:
+                live_in[bi] = live
+                changed = True
+    for bi, blk in enumerate(blocks):
+        live = set()
+        for sj in succ[bi]:
+            live |= live_in[sj]
+        for oi in range(len(blk) - 1, -1, -1):
+            op = blk[oi]
+            before = (live - def_b[bi][oi]) | use_b[bi][oi]
+            if op["k"] == "branch":
+                op["kt"] = sorted(before - live_in[op["t"] - 1])
+                op["kf"] = sorted(before - live_in[op["f"] - 1])
+            elif op["k"] not in ("goto", "unreach", "ret"):
+                op["kl"] = sorted((before | def_b[bi][oi]) - live)
+            live = before
 
 
 def _tla(x: Any) -> str:
@@ -316,7 +384,7 @@ def compile_case(case: dict[str, Any], workdir: str, want_text: bool = False) ->
     os.chdir(tmp)
     name = case["name"]
     files = dict(case["files"])
-    if "builtins.pyi" not in files:
+    if "builtins.pyi" not in files and not case.get("real_typeshed"):
         shutil.copyfile(os.path.join(CORPUS_DIR, "fixtures", "ir.py"), "builtins.pyi")
     shutil.copyfile(os.path.join(CORPUS_DIR, "fixtures", "testutil.py"), "testutil.py")
     with open("native.py", "w", encoding="utf-8") as f:
@@ -329,7 +397,7 @@ def compile_case(case: dict[str, Any], workdir: str, want_text: bool = False) ->
             f.write(txt)
 
     options = Options()
-    options.use_builtins_fixtures = True
+    options.use_builtins_fixtures = not case.get("real_typeshed")
     options.show_traceback = True
     options.strict_optional = True
     options.strict_bytes = True
@@ -373,7 +441,8 @@ def compile_case(case: dict[str, Any], workdir: str, want_text: bool = False) ->
     result = None
     try:
         result = emitmodule.parse_and_typecheck(sources=sources, options=options, compiler_options=co,
-                                                groups=groups, alt_lib_path=".")
+                                                groups=groups,
+                                                alt_lib_path=None if case.get("real_typeshed") else ".")
         errors = Errors(options)
         group_map = {source.module: lib_name for group, lib_name in groups for source in group}
         mapper = Mapper(group_map)
@@ -489,3 +558,547 @@ def export_corpus(cases: list[tuple[str, str]], workroot: str, nproc: int = 16, 
             fails += [(r["file"], n, e) for n, e in r["fails"]]
     funcs.sort(key=lambda f: (f["prog"], f["fn"], f["stage"]))
     return dict(funcs=funcs, stats=stats, fails=fails)
+
+
+# =========================================================================== hand-made sample functions
+# (spec/OwnData.tla is generated from these; they make the specification checkable on its own and
+# serve as specification-level mutants: every invariant must fire on its twin.)
+def _op(d: int = 0, s: Any = (), st: Any = (), bw: bool = False, ek: int = 0, rn: bool = False, ln: int = 0) -> dict[str, Any]:
+    return dict(k="op", d=d, s=list(s), st=list(st), bw=bw, ek=ek, rn=rn, ln=ln, nok=[])
+
+
+def _br(v: int, t: int, f: int, iserr: bool = True, neg: bool = False) -> dict[str, Any]:
+    return dict(k="branch", s=[v], t=t, f=f, iserr=iserr, neg=neg, c=9)
+
+
+def _ret(v: int) -> dict[str, Any]:
+    return dict(k="ret", s=[v], st=[v])
+
+
+def _fn(nv: int, na: int, w: list[int], nm: list[bool], blocks: list[list[dict[str, Any]]]) -> dict[str, Any]:
+    base, acc = [], 0
+    for x in w:
+        base.append(acc)
+        acc += x
+    _add_kills(blocks)
+    return dict(nv=nv, na=na, ns=acc, opt=[], w=w, base=base, nm=nm, blocks=blocks)
+
+
+def sample_functions() -> dict[str, dict[str, Any]]:
+    """name -> function record.  Values: 1 = argument x (object)."""
+    F = False
+    res = {}
+    # r = call(x); if error return <error>; return r
+    res["good_call"] = _fn(3, 1, [1, 1, 1], [F, F, F], [
+        [_op(d=2, s=[1], ek=1), _br(2, 3, 2)],
+        [_ret(2)],
+        [dict(k="lev", d=3, x=False), _ret(3)]])
+    # inc_ref x; t = box(x) [steals x]; return t
+    res["good_steal"] = _fn(2, 1, [1, 1], [F, F], [
+        [dict(k="inc", s=[1]), _op(d=2, s=[1], st=[1]), _ret(2)]])
+    # y = 'lit'; loop: r = call(); if error -> dec y, return error; dec y; y = r; if c goto loop; return y
+    res["good_loop"] = _fn(5, 1, [1, 1, 1, 0, 1], [F, True, F, F, F], [
+        [dict(k="assign", d=2, s=[0], st=[0], c=9), dict(k="goto", t=2)],
+        [_op(d=3, s=[1], ek=1), _br(3, 5, 3)],
+        [dict(k="dec", s=[2], x=False), dict(k="assign", d=2, s=[3], st=[3], c=9), _op(d=4, s=[1]), _br(4, 2, 4, iserr=False)],
+        [_ret(2)],
+        [dict(k="dec", s=[2], x=False), dict(k="lev", d=5, x=False), _ret(5)]])
+    # (a, b) = t  with unborrow: t = call() -> tuple[object, object]; a = borrow t[0]; b = borrow t[1];
+    # a2 = unborrow a; b2 = unborrow b; dec b2; return a2
+    res["good_unborrow"] = _fn(6, 1, [1, 2, 1, 1, 1, 1], [F] * 6, [
+        [_op(d=2, s=[1]),
+         dict(_op(d=3, s=[2], bw=True), k="tget", lo=0), dict(_op(d=4, s=[2], bw=True), k="tget", lo=1),
+         dict(k="unborrow", d=5, s=[3], root=2, lo=0), dict(k="unborrow", d=6, s=[4], root=2, lo=1),
+         dict(k="dec", s=[6], x=False), _ret(5)]])
+    # r = call(x); r2 = call(x) fails -> return error without releasing r
+    res["bad_leak"] = _fn(4, 1, [1, 1, 1, 1], [F] * 4, [
+        [_op(d=2, s=[1]), _op(d=3, s=[1], ek=1), _br(3, 3, 2)],
+        [dict(k="dec", s=[2], x=False), _ret(3)],
+        [dict(k="lev", d=4, x=False), _ret(4)]])
+    # dec_ref x (a borrowed argument); return x
+    res["bad_double"] = _fn(1, 1, [1], [F], [
+        [dict(k="dec", s=[1], x=False), dict(k="inc", s=[1]), _ret(1)]])
+    # y = <error, undefines>; r = call(y)
+    res["bad_undef"] = _fn(4, 1, [1, 1, 1, 1], [F, F, True, F], [
+        [dict(k="lev", d=2, x=True), dict(k="assign", d=3, s=[2], st=[2], c=9), _op(d=4, s=[3]), _ret(4)]])
+    # r = call(x); dec_ref r; r2 = call(r)
+    res["bad_uaf"] = _fn(3, 1, [1, 1, 1], [F] * 3, [
+        [_op(d=2, s=[1]), dict(k="dec", s=[2], x=False), _op(d=3, s=[2]), _ret(3)]])
+    # r = call(x) [can fail]; r2 = call(r) without the error test
+    res["bad_unchecked"] = _fn(3, 1, [1, 1, 1], [F] * 3, [
+        [_op(d=2, s=[1], ek=1), _op(d=3, s=[2]), dict(k="dec", s=[2], x=True), _ret(3)]])
+    return res
+
+
+def data_module(tla_funcs: list[str]) -> str:
+    return ("---- MODULE OwnData ----\n\\* generated by harness/drivers/c06.py -- one record per function\n"
+            "EXTENDS Integers\nFuncs == <<\n" + ",\n".join(tla_funcs) + "\n>>\n====\n")
+
+
+# =========================================================================== TLC over batches of functions
+SPEC_FILES = ("Ownership.tla", "MC_Ownership.tla", "MC_Ownership.cfg", "Gen_Ownership.cfg", "Gen_Ownership_Exits.cfg")
+_BAD_RE = re.compile(r'<<"BAD", (\d+), (\d+), (\d+), "([^"]*)", (\d+), "([^"]*)">>')
+_END_RE = re.compile(r'<<"END", (\d+), "([^"]*)", "([^"]*)">>')
+
+
+def write_batch(d: str, funcs: list[dict[str, Any]]) -> None:
+    os.makedirs(d, exist_ok=True)
+    for n in SPEC_FILES:
+        shutil.copy(os.path.join(SPEC, n), d)
+    with open(os.path.join(d, "OwnData.tla"), "w") as f:
+        f.write(data_module([x["tla"] for x in funcs]))
+
+
+def make_batches(funcs: list[dict[str, Any]], nb: int) -> list[list[dict[str, Any]]]:
+    order = sorted(range(len(funcs)), key=lambda i: -funcs[i]["nops"])
+    batches: list[list[dict[str, Any]]] = [[] for _ in range(nb)]
+    load = [0] * nb
+    for i in order:
+        j = load.index(min(load))
+        batches[j].append(funcs[i])
+        load[j] += funcs[i]["nops"] + 20
+    return [b for b in batches if b]
+
+
+def run_batches(funcs: list[dict[str, Any]], root: str, tag: str, nb: int, workers: int,
+                cfg: str = "Gen_Ownership.cfg", coverage: bool = True, timeout: int = 1500, par: int = 8) -> dict[str, Any]:
+    """TLC in collection mode over all functions.  Returns states, transitions, the bad states
+    (with the function they belong to), path ends, and per-action coverage summed over batches."""
+    batches = make_batches(funcs, nb)
+
+    def one(j: int) -> Any:
+        d = os.path.join(root, "%s-b%d" % (tag, j))
+        write_batch(d, batches[j])
+        r = tlc("MC_Ownership", cfg, cwd=d, workers=workers, heap="3g", coverage=coverage, timeout=timeout)
+        shutil.rmtree(d, ignore_errors=True)
+        return r
+
+    res: dict[str, Any] = dict(states=0, transitions=0, bad=[], ends={}, cov={}, wall=0.0, depth=0)
+    with ThreadPoolExecutor(min(par, len(batches))) as ex:
+        for j, r in enumerate(ex.map(one, range(len(batches)))):
+            if r.error or r.violated:
+                raise MachineryError("TLC batch %s/%d failed: %s %s\n%s" % (tag, j, r.violated, r.error, r.out[-1500:]))
+            res["states"] += r.distinct
+            res["transitions"] += r.generated
+            res["wall"] = max(res["wall"], r.wall)
+            res["depth"] = max(res["depth"], r.depth)
+            for a, (d_, t_) in r.coverage.items():
+                od, ot = res["cov"].get(a, (0, 0))
+                res["cov"][a] = (od + d_, ot + t_)
+            for line in r.printed:
+                m = _BAD_RE.match(line)
+                if m:
+                    fn = batches[j][int(m.group(1)) - 1]
+                    res["bad"].append(dict(f=fn, blk=int(m.group(2)), idx=int(m.group(3)), why=m.group(4),
+                                           wv=int(m.group(5)), inv=m.group(6)))
+                    continue
+                m = _END_RE.match(line)
+                if m:
+                    fn = batches[j][int(m.group(1)) - 1]
+                    kind = "unreach" if m.group(2) == "unreach" else ("error" if m.group(3) in ("N", "E", "F", "O") else "value")
+                    res["ends"].setdefault((fn["prog"], fn["stage"], fn["fn"]), set()).add(kind)
+    return res
+
+
+def norm_fn(fn: str) -> str:
+    """Compiler-generated helper functions are the same code in every program: name them generically."""
+    if fn.endswith(".__mypyc_generator_helper__"):
+        return "<generator>.__mypyc_generator_helper__"
+    m = re.search(r"_gen(___\d+)?\.(close|throw|send|__next__|__iter__|__await__)$", fn)
+    if m:
+        return "<generator>." + m.group(2)
+    return fn
+
+
+def bad_key(b: dict[str, Any]) -> str:
+    f = b["f"]
+    opname = f["meta"][b["blk"] - 1][b["idx"] - 1][0]
+    opname = re.sub(r"__mypyc_temp__2_\d+", "__mypyc_temp__2_N", opname)
+    fn = norm_fn(f["fn"])
+    where = fn if fn.startswith("<generator>") else f["prog"] + "::" + fn
+    return "ir:%s:%s@%s" % (b["why"], opname, where)
+
+
+def confirm_with_tlc(b: dict[str, Any], root: str) -> tuple[str | None, str]:
+    """Re-check the single function with the halting invariants: the verdict on a violation is
+    TLC's `Invariant ... is violated' and its counterexample goes into the replay file."""
+    d = os.path.join(root, "confirm-%d" % (abs(hash((b["f"]["prog"], b["f"]["fn"], b["f"]["stage"], b["why"]))) % 10**8))
+    write_batch(d, [b["f"]])
+    r = tlc("MC_Ownership", "MC_Ownership.cfg", cwd=d, workers=2, heap="2g", coverage=False, timeout=600)
+    shutil.rmtree(d, ignore_errors=True)
+    if r.error:
+        raise MachineryError("TLC confirm failed: " + r.error)
+    return r.violated, r.trace_text[-6000:]
+
+
+def ir_text(prog: str, stage: str, fn: str, root: str) -> str:
+    """Pretty-printed IR of one function (re-exported in a child process; only used for replay files)."""
+    code = ("import sys, json\nfrom harness.drivers import c06\n"
+            "print(json.dumps(c06.show_function(%r, %r, %r, %r)))\n" % (prog, stage, fn, os.path.join(root, "show")))
+    p = subprocess.run([PY, "-c", code], env=dict(repo_env(), PYTHONPATH=VERIF + os.pathsep + REPO),
+                       capture_output=True, text=True, timeout=300, cwd=VERIF)
+    try:
+        return json.loads(p.stdout.strip().splitlines()[-1])
+    except Exception:
+        return "(IR text unavailable: %s)" % p.stderr[-300:]
+
+
+def show_function(prog: str, stage: str, fn: str, workdir: str) -> str:
+    _worker_init()
+    fname, name = prog.split("::")
+    os.makedirs(workdir, exist_ok=True)
+    cwd = os.getcwd()
+    try:
+        if fname == "<probes>":
+            r = compile_probes(workdir, want_text=True)
+        else:
+            for case_id, body in split_cases(os.path.join(CORPUS_DIR, fname)):
+                case = parse_case(fname, case_id, body)
+                if case and case["name"] == name:
+                    r = compile_case(case, workdir, want_text=True)
+                    break
+            else:
+                return "(case not found)"
+    finally:
+        os.chdir(cwd)
+    t = r.get("text_rc", {}) if stage == "rc" else r.get("text", {})
+    return t.get(fn, "(function not found)")
+
+
+# =========================================================================== dynamic binding (probe programs)
+HERE = os.path.dirname(os.path.abspath(__file__))
+PROBES_SRC = os.path.join(HERE, "c06_probes.py")
+RUNNER_SRC = os.path.join(HERE, "c06_runner.py")
+
+
+def compile_probes(workdir: str, want_text: bool = False) -> dict[str, Any]:
+    """IR of the probe module through the same exporter (real typeshed, as `mypyc' itself uses)."""
+    with open(PROBES_SRC, encoding="utf-8") as f:
+        src = f.read()
+    case = dict(file="<probes>", name="c06probes", main=src, files={}, real_typeshed=True)
+    return compile_case(case, workdir, want_text=want_text)
+
+
+def export_probes(workroot: str) -> dict[str, Any]:
+    if _REAL_INSERT[0] is None:
+        _worker_init()
+    cwd = os.getcwd()
+    try:
+        r = compile_probes(os.path.join(workroot, "probes-ir"))
+    finally:
+        os.chdir(cwd)
+    if r["error"]:
+        raise MachineryError("probe module does not compile: " + r["error"])
+    out = []
+    for stage in ("rc", "final"):
+        for fullname, rec in r[stage]:
+            out.append(dict(prog="<probes>::c06probes", stage=stage, fn=fullname,
+                            nops=sum(len(b) for b in rec["blocks"]), nvals=rec["nv"],
+                            tla=func_to_tla(rec), meta=rec["_meta"], vals=rec["_vals"]))
+    return dict(funcs=out)
+
+
+def build_probes(d: str, opt: str) -> None:
+    """Compile the probe module to a C extension with the working tree's mypyc (real command line)."""
+    os.makedirs(d, exist_ok=True)
+    shutil.copyfile(PROBES_SRC, os.path.join(d, "c06probes.py"))
+    shutil.copyfile(RUNNER_SRC, os.path.join(d, "c06_runner.py"))
+    env = repo_env({"MYPYC_OPT_LEVEL": opt, "MYPYC_DEBUG_LEVEL": "0"})
+    p = subprocess.run([PY, "-m", "mypyc", "c06probes.py"], cwd=d, env=env, capture_output=True, text=True, timeout=1200)
+    so = [f for f in os.listdir(d) if f.startswith("c06probes.") and f.endswith(".so")]
+    if p.returncode != 0 or not so:
+        raise MachineryError("mypyc build of the probe module failed (-O%s): %s" % (opt, (p.stdout + p.stderr)[-1500:]))
+    # the interpreted twin (CPython baseline) lives in its own directory
+    os.makedirs(os.path.join(d, "interp"), exist_ok=True)
+    shutil.copyfile(PROBES_SRC, os.path.join(d, "interp", "c06probes.py"))
+    shutil.copyfile(RUNNER_SRC, os.path.join(d, "interp", "c06_runner.py"))
+
+
+def run_probes(d: str, n: int, seed: int) -> dict[str, Any]:
+    """Run the runner in a child; returns results, and the case during which the child died (if any)."""
+    env = dict(os.environ)
+    env.pop("PYTHONPATH", None)
+    env["PYTHONDONTWRITEBYTECODE"] = "1"
+    env["PYTHONHASHSEED"] = "0"
+    p = subprocess.run([PY, "c06_runner.py", "c06probes", str(n), str(seed)], cwd=d, env=env,
+                       capture_output=True, text=True, timeout=1200)
+    results: dict[tuple[str, str], dict[str, Any]] = {}
+    begun = None
+    done = False
+    for line in p.stdout.splitlines():
+        if line.startswith("BEGIN "):
+            begun = line[6:]
+        elif line.startswith("RESULT "):
+            r = json.loads(line[7:])
+            results[(r["case"], r["kind"])] = r
+            begun = None
+        elif line == "DONE":
+            done = True
+    return dict(results=results, rc=p.returncode, died_in=None if done else (begun or "?"), stderr=p.stderr[-800:])
+
+
+# =========================================================================== main
+ALWAYS_FULL = ("run-generators.test", "run-exceptions.test")
+# programs outside ALWAYS_FULL in which a known finding lives: always part of the quick tier
+MUST = {("run-async.test", "testBorrowedFinalAttrAcrossAsyncComprehension")}
+MIN_FUNCS = {"quick": 4000, "thorough": 12000}
+RUN_SAMPLE = 0.12      # share of the remaining run-*.test programs the quick tier samples (seeded)
+
+
+def select_cases(tier: str, rnd: random.Random) -> tuple[list[tuple[str, str]], dict[str, int]]:
+    files = corpus_files()
+    allc = list_cases(files)
+    if tier != "quick":
+        return allc, dict(available=len(allc), selected=len(allc))
+    fixed = [c for c in allc if not c[0].startswith("run-") or c[0] in ALWAYS_FULL or c in MUST]
+    rest = [c for c in allc if c not in set(fixed)]
+    rnd.shuffle(rest)
+    sel = fixed + sorted(rest[: int(len(rest) * RUN_SAMPLE)])
+    return sel, dict(available=len(allc), selected=len(sel))
+
+
+def nontrivial(f: dict[str, Any]) -> bool:
+    """A function record is non-trivial when it contains reference-count traffic and a branch."""
+    t = f["tla"]
+    return ('k|->"branch"' in t) and ('k|->"inc"' in t or 'k|->"dec"' in t)
+
+
+def main(argv: list[str]) -> int:
+    tier, seed, replay = parse_args(argv)
+    if replay:
+        return do_replay(replay)
+    v = Verdict(PID, tier, seed)
+    rnd = random.Random(seed)
+    root = scratch("c06-")
+    t0 = time.time()
+    sany(os.path.join(SPEC, "MC_Ownership.tla"))
+    assumptions = [
+        "ops are interpreted through the contracts mypyc/ir/ops.py declares (stolen(), is_borrowed, error_kind); "
+        "whether the generated C honours them is what the probe runs check, for the probes only",
+        "heap state is not modelled: a read of a spill slot (__mypyc_temp__2_N) is taken to be defined; "
+        "always-defined attribute analysis is trusted statically (probed dynamically)",
+        "registers whose address is taken (out parameters) are not tracked",
+        "locals of types whose error value overlaps a real value (i64, float, ...) use a bitmap the machine does "
+        "not interpret: their definedness is only probed dynamically",
+        "out-of-memory failures of runtime helpers are not exercised dynamically",
+    ]
+
+    # ---- 0. the specification on its own: sample functions, and its mutants must be rejected
+    cov: dict[str, Any] = {}
+    states = transitions = 0
+    r = tlc("MC_Ownership", "MC_Ownership_Sample.cfg", workers=2, heap="1g")
+    if not r.ok:
+        raise MachineryError("sample functions rejected: %s %s" % (r.violated, r.error))
+    states += r.distinct
+    transitions += r.generated
+    mut = {}
+    for name, inv in (("Leak", "NoLeak"), ("Double", "NoDoubleRelease"), ("Undef", "NoUndefRead"),
+                      ("UseAfter", "NoUseAfterRelease"), ("Unchecked", "NoUndefRead")):
+        rm = tlc("MC_Ownership", "Mut_Ownership_%s.cfg" % name, workers=1, heap="1g", coverage=False)
+        mut[name] = rm.violated
+        if rm.violated != inv:
+            raise MachineryError("specification mutant %s not rejected by %s: %s %s" % (name, inv, rm.violated, rm.error))
+    cov["spec_mutants_rejected"] = mut
+
+    # ---- 1. dynamic binding: build the probe extension(s) in the background
+    opts = ["0"] if tier == "quick" else ["0", "3"]
+    build_pool = ThreadPoolExecutor(len(opts))
+    builds = {o: build_pool.submit(build_probes, os.path.join(root, "dyn-O" + o), o) for o in opts}
+
+    # ---- 2. IR of the corpus from the real pipeline of the working tree
+    cases, sel_stats = select_cases(tier, rnd)
+    ex = export_corpus(cases, os.path.join(root, "exp"), nproc=14)
+    funcs = ex["funcs"]
+    pex = export_probes(root)
+    n_corpus = len(funcs)
+    print("exported %d function records (%d ops) from %d/%d programs in %.0fs; %d programs did not compile"
+          % (n_corpus, sum(f["nops"] for f in funcs), ex["stats"]["compiled"], ex["stats"]["cases"],
+             time.time() - t0, ex["stats"]["failed"]), flush=True)
+    if n_corpus < MIN_FUNCS[tier]:
+        raise MachineryError("only %d functions exported (minimum %d): the exporter is broken" % (n_corpus, MIN_FUNCS[tier]))
+    if ex["stats"]["compiled"] < 0.9 * ex["stats"]["cases"]:
+        raise MachineryError("only %d of %d corpus programs compiled" % (ex["stats"]["compiled"], ex["stats"]["cases"]))
+    crashes = [f for f in ex["fails"] if "compiler crash" in f[2]]
+
+    # ---- 3. TLC: every feasible path of every function, both stages
+    t1 = time.time()
+    nb = 12 if tier == "quick" else 32
+    res = run_batches(funcs, root, "corpus", nb=nb, workers=2, par=8)
+    pres = run_batches(pex["funcs"], root, "probes", nb=1, workers=2, cfg="Gen_Ownership_Exits.cfg", coverage=False)
+    states += res["states"] + pres["states"]
+    transitions += res["transitions"] + pres["transitions"]
+    print("TLC: %d states, %d transitions, depth %d in %.0fs" % (states, transitions, res["depth"], time.time() - t1), flush=True)
+    never = sorted(a for a, (d, t) in res["cov"].items() if t == 0 and a.startswith("Do"))
+    if never:
+        raise MachineryError("actions never fired: %s" % never)
+    cov["Ownership"] = {"per_action": {a: {"distinct": d, "total": t} for a, (d, t) in sorted(res["cov"].items())
+                                       if a.startswith("Do") or a in ("Init", "InitFor")},
+                        "never_fired": never, "states": res["states"], "transitions": res["transitions"]}
+
+    # ---- 4. verdict of the static part
+    by_key: dict[str, list[dict[str, Any]]] = {}
+    for b in res["bad"] + pres["bad"]:
+        by_key.setdefault(bad_key(b), []).append(b)
+    inv_counts: dict[str, int] = {"NoLeak": 0, "NoDoubleRelease": 0, "NoUndefRead": 0, "NoUseAfterRelease": 0}
+    new_static = 0
+    for key in sorted(by_key):
+        bs = by_key[key]
+        b = min(bs, key=lambda x: (x["f"]["nops"], x["f"]["prog"], x["f"]["stage"]))
+        inv_counts[b["inv"]] = inv_counts.get(b["inv"], 0) + len(bs)
+        if key in v.known:
+            for _ in bs:
+                v.violation(key, None)
+            continue
+        new_static += 1
+        if new_static > 12:
+            v.violation(key, {"kind": "ir", "prog": b["f"]["prog"], "fn": b["f"]["fn"], "stage": b["f"]["stage"]},
+                        "%s (not re-confirmed: too many new violations)" % key)
+            continue
+        violated, trace = confirm_with_tlc(b, root)
+        if violated != b["inv"]:
+            raise MachineryError("collection run reported %s for %s but the halting run says %s" % (b["inv"], key, violated))
+        opname = b["f"]["meta"][b["blk"] - 1][b["idx"] - 1]
+        v.violation(key, {"kind": "ir", "prog": b["f"]["prog"], "fn": b["f"]["fn"], "stage": b["f"]["stage"],
+                          "block": b["blk"], "op_index": b["idx"], "op": opname[0], "source_line": opname[1],
+                          "value": b["wv"], "value_name": (b["f"]["vals"][b["wv"] - 1] if b["wv"] else ""),
+                          "reason": b["why"], "invariant": b["inv"], "functions_affected": len(bs),
+                          "ir": ir_text(b["f"]["prog"], b["f"]["stage"], b["f"]["fn"], root),
+                          "tlc_counterexample": trace},
+                    "TLC: invariant %s violated (%s) in %s %s [%s IR] at block L%d op %d (%s, line %d); %d function records affected"
+                    % (b["inv"], b["why"], b["f"]["prog"], b["f"]["fn"], b["f"]["stage"], b["blk"] - 1, b["idx"], opname[0], opname[1], len(bs)))
+
+    # ---- 5. dynamic binding: machine predictions vs the compiled extension vs CPython
+    exits: dict[str, set[str]] = {}
+    for (prog, stage, fn), kinds in pres["ends"].items():
+        if stage == "final":
+            exits[fn] = kinds
+    dyn_compared = 0
+    dyn_samples: list[Any] = []
+    drift: list[str] = []
+    for o in opts:
+        builds[o].result()
+        d = os.path.join(root, "dyn-O" + o)
+        n = 30 if tier == "quick" else 200
+        comp = run_probes(d, n, seed)
+        base = run_probes(os.path.join(d, "interp"), max(5, n // 6), seed)
+        if base["died_in"] or base["rc"] != 0:
+            raise MachineryError("interpreted baseline run failed: %s %s" % (base["died_in"], base["stderr"]))
+        if comp["died_in"]:
+            case = comp["died_in"].split("/")[0]
+            v.violation("dyn:crash:" + case, {"kind": "dyn", "case": comp["died_in"], "opt": o, "rc": comp["rc"]},
+                        "the child running the compiled probe module died (exit %s) during case %s at -O%s: %s"
+                        % (comp["rc"], comp["died_in"], o, comp["stderr"][-300:]))
+        if len(comp["results"]) < 50 and not comp["died_in"]:
+            raise MachineryError("probe runner produced only %d results" % len(comp["results"]))
+        for ck in sorted(comp["results"]):
+            rc_ = comp["results"][ck]
+            rb = base["results"].get(ck)
+            if rb is None:
+                raise MachineryError("baseline has no result for %s" % (ck,))
+            if rb["delta"] != [0, 0]:
+                raise MachineryError("harness noise: interpreted baseline changes reference counts in %s: %s" % (ck, rb))
+            dyn_compared += 1
+            case = rc_["case"]
+            if len(dyn_samples) < 3 and rc_["outs"] != ["ret"]:
+                dyn_samples.append({"case": "%s/%s" % ck, "opt": "O" + o, "compiled": rc_["outs"], "cpython": rb["outs"],
+                                    "refcount_delta_after_%d_calls" % n: rc_["delta"],
+                                    "machine_exits": sorted(exits.get("native." + rc_["fn"], []))})
+            per_call = [x / float(rc_["n"]) for x in rc_["delta"]]
+            if any(x > 0 for x in rc_["delta"]):
+                v.violation("dyn:leak:" + case, {"kind": "dyn", "case": ck, "opt": o, "result": rc_},
+                            "compiled %s leaks: refcount delta %s after %d calls (%s per call) on %s objects, outcome %s; CPython: balanced"
+                            % (case, rc_["delta"], rc_["n"], per_call, ck[1], rc_["outs"]))
+            if any(x < 0 for x in rc_["delta"]):
+                v.violation("dyn:over-release:" + case, {"kind": "dyn", "case": ck, "opt": o, "result": rc_},
+                            "compiled %s releases references it does not own: refcount delta %s after %d calls on %s objects"
+                            % (case, rc_["delta"], rc_["n"], ck[1]))
+            if not rc_["typed"] and rc_["outs"] != rb["outs"]:
+                v.violation("dyn:outcome:" + case, {"kind": "dyn", "case": ck, "opt": o, "compiled": rc_["outs"], "cpython": rb["outs"]},
+                            "compiled %s behaves differently from CPython: %s vs %s" % (case, rc_["outs"], rb["outs"]))
+            # the machine's prediction of how the function can be left
+            ek = exits.get("native." + rc_["fn"])
+            if ek is not None:
+                for out in rc_["outs"]:
+                    need = "value" if out == "ret" else "error"
+                    if need not in ek:
+                        drift.append("%s: observed %s but the machine's paths of %s end in %s" % (ck, out, rc_["fn"], sorted(ek)))
+    build_pool.shutdown()
+    if drift:
+        raise MachineryError("model drift (the machine does not describe the compiled code): " + "; ".join(drift[:5]))
+    if dyn_compared == 0:
+        raise MachineryError("the dynamic binding step did not run")
+
+    # ---- 6. evidence
+    distinct = {}
+    for f in funcs:
+        distinct.setdefault(hash(f["tla"]), f)
+    n_nontrivial = sum(1 for f in distinct.values() if nontrivial(f))
+    progs = sorted({f["prog"] for f in funcs})
+    sample_f = next((f for f in funcs if f["prog"].startswith("refcount.test") and nontrivial(f)), funcs[0])
+    coverage = {
+        "states": states, "transitions": transitions,
+        "traces_validated_against_impl": dyn_compared,
+        "evaluations": n_corpus + len(pex["funcs"]) + dyn_compared,
+        "distinct_nontrivial": n_nontrivial,
+        "rule": "every function of every selected corpus program, exported at two pipeline stages (after "
+                "insert_ref_count_opcodes [+ spills for generators], and final IR); TLC explores every feasible CFG path of each; "
+                "distinct = distinct exported records; non-trivial = the record contains a branch and at least one inc_ref/dec_ref. "
+                "quick tier: all irbuild-*/refcount/exceptions/lowering/opt programs + run-generators/run-exceptions + a "
+                "seeded %d%% sample of the other run-*.test programs; thorough: the whole corpus" % int(RUN_SAMPLE * 100),
+        "function_records_checked": n_corpus, "distinct_function_records": len(distinct),
+        "ir_ops": sum(f["nops"] for f in funcs),
+        "programs": len(progs), "programs_available": sel_stats["available"], "programs_not_compiling": ex["stats"]["failed"],
+        "compiler_crashes_on_corpus_programs": [list(c) for c in crashes][:10],
+        "bad_states_by_invariant": inv_counts,
+        "dynamic_probe_runs_compared": dyn_compared, "dynamic_opt_levels": ["-O" + o for o in opts],
+        "probe_functions_model_checked": len(pex["funcs"]),
+        "search_depth": res["depth"],
+        "samples": [{"function": sample_f["prog"] + " " + sample_f["fn"] + " [" + sample_f["stage"] + "]",
+                     "record": sample_f["tla"][:1500]}] + dyn_samples,
+        "tlc": cov,
+        "exhaustive": tier == "thorough",
+        "wall_export_s": round(t1 - t0, 1),
+    }
+    return v.finish("model_checking", coverage, assumptions)
+
+
+def do_replay(path: str) -> int:
+    """Re-run one recorded violation: the static ones re-export the program from the working tree and
+    let TLC check that single function with the halting invariants."""
+    with open(path) as f:
+        rep = json.load(f)
+    r = rep.get("replay") or {}
+    root = scratch("c06-replay-")
+    if r.get("kind") == "ir":
+        if _REAL_INSERT[0] is None:
+            _worker_init()
+        fname, name = r["prog"].split("::")
+        if fname == "<probes>":
+            funcs = export_probes(root)["funcs"]
+        else:
+            funcs = export_file((fname, root, [name]))["funcs"]
+        hit = [f for f in funcs if f["fn"] == r["fn"] and f["stage"] == r["stage"]]
+        if not hit:
+            raise MachineryError("function %s not found when re-exporting %s" % (r["fn"], r["prog"]))
+        violated, trace = confirm_with_tlc(dict(f=hit[0], why=r.get("reason", "")), root)
+        print("replay: %s %s [%s]: %s" % (r["prog"], r["fn"], r["stage"], "invariant %s violated" % violated if violated else "no violation"))
+        print(trace[-2500:])
+        return 1 if violated else 0
+    if r.get("kind") == "dyn":
+        d = os.path.join(root, "dyn")
+        build_probes(d, r.get("opt", "0"))
+        comp = run_probes(d, 50, 0)
+        ck = tuple(r["case"]) if isinstance(r["case"], list) else None
+        res = comp["results"].get(ck) if ck else None
+        print("replay:", r["case"], "->", res, "died_in:", comp["died_in"])
+        bad = comp["died_in"] is not None or (res is not None and res["delta"] != [0, 0])
+        return 1 if bad else 0
+    raise MachineryError("unknown replay file")
+
+
+if __name__ == "__main__":
+    try:
+        sys.exit(main(sys.argv[1:]))
+    except MachineryError as e:
+        print("MACHINERY FAILURE:", e, file=sys.stderr)
+        sys.exit(2)
